@@ -47,6 +47,28 @@ def main():
     out['mapping_deep'] = hashlib.sha1(refdata.canon(
         (o.blob or {}).get('results')).encode()).hexdigest() \
         if o.ok else 'ERROR ' + str(o.error)
+    # even iteration counts and weak cells: exact vote ties between sibling
+    # nodes above the leaf level, whose resolution must not depend on the
+    # iteration order of a set
+    ties = 0
+    spec = dict(spec, n_cells=16, marker_mode='full')
+    b = scenario.build(spec, scratch.new_dir('in') / 'in')
+    for it in (2, 4):
+        o = scenario.run_mapping(b, {'chunk_size': 16, 'n_processors': 2,
+                                     'factor': 0.34, 'iterations': it,
+                                     'n_runners_up': 3},
+                                 scratch.new_dir('r'))
+        out[f'mapping_deep_ties_{it}'] = hashlib.sha1(refdata.canon(
+            (o.blob or {}).get('results')).encode()).hexdigest() \
+            if o.ok else 'ERROR ' + str(o.error)
+        if o.ok:
+            for rec in o.blob['results']:
+                for lv in b.model['hierarchy'][:-1]:
+                    rp = rec[lv].get('runner_up_probability') or []
+                    if rp and abs(rp[0] - rec[lv][
+                            'bootstrapping_probability']) < 1e-12:
+                        ties += 1
+    out['ties'] = ties
     sys.stdout = real_stdout
     print(json.dumps(out))
 
